@@ -1,6 +1,6 @@
 """C08 - failures are AmpycloudError only; guard discipline in front of third-party numerics.
 Totality / termination of pandas, scikit-learn, statsmodels is NOT claimed (not statically decidable)."""
-from sa.rules import exceptions, baseheight, indexing, scaling
+from sa.rules import exceptions, baseheight, indexing, scaling, typestate
 
 LEVEL = 'other'
 
@@ -28,5 +28,7 @@ def check(ctx):
     # R9: the selection handed to the base routine is never empty - all members, or the members without the excluded
     # ceilometers only when more than MAX_HITS_OKTA0 (>= 0) of them remain (an empty one is refused: valid data refused)
     baseheight.selection(ctx, 'C08-R9')
+    # R10: a stage table is never used as a condition (pandas ValueError once the stage has run, = C14-T7)
+    typestate.tables_have_no_truth_value(ctx, 'C08-R10')
     ctx.undecided += ['termination and totality of the third-party numerics for every accepted input',
                       'whether an assert can fire is a run-time question (asserts are listed as information)']
